@@ -161,3 +161,61 @@ theorem dictVals_eq_filter {c : List Var} (hn : (c.map (·.name)).Nodup) (ks : L
   rfl
 
 end Y0
+
+namespace Y0
+
+/-! ### the children dict of `Sum.simplify`, without any assumption on the children -/
+
+theorem lastWithBase_some {c : List Var} {k : Var} (hk : k ∈ c.map Var.base) :
+    ∃ v, lastWithBase c k = some v ∧ v ∈ c ∧ v.base = k := by
+  unfold lastWithBase
+  obtain ⟨w, hw, hwk⟩ := List.mem_map.mp hk
+  have hne : c.filter (fun v => decide (v.base = k)) ≠ [] := by
+    intro h0
+    have : w ∈ c.filter (fun v => decide (v.base = k)) := List.mem_filter.mpr ⟨hw, by simpa using hwk⟩
+    rw [h0] at this; cases this
+  obtain ⟨v, hv⟩ : ∃ v, (c.filter (fun v => decide (v.base = k))).getLast? = some v := by
+    cases h : (c.filter (fun v => decide (v.base = k))).getLast? with
+    | none => exact absurd (List.getLast?_eq_none_iff.mp h) hne
+    | some v => exact ⟨v, rfl⟩
+  have hmem := List.mem_of_getLast? hv
+  rw [List.mem_filter] at hmem
+  exact ⟨v, hv, hmem.1, by simpa using hmem.2⟩
+
+/-- the values kept from the dict have exactly the selected keys as bases, in the order of the keys -/
+theorem dictVals_map_base (c ks : List Var) :
+    ((inter' (dedup' (c.map Var.base)) ks).filterMap (lastWithBase c)).map Var.base =
+      inter' (dedup' (c.map Var.base)) ks := by
+  have hsub : ∀ k ∈ inter' (dedup' (c.map Var.base)) ks, k ∈ c.map Var.base :=
+    fun k hk => mem_dedup'.mp (mem_inter'.mp hk).1
+  generalize inter' (dedup' (c.map Var.base)) ks = l at hsub
+  induction l with
+  | nil => rfl
+  | cons k l ih =>
+    obtain ⟨v, hv, _, hb⟩ := lastWithBase_some (hsub k List.mem_cons_self)
+    rw [List.filterMap_cons, hv]
+    simp only [List.map_cons, hb]
+    rw [ih (fun x hx => hsub x (List.mem_cons_of_mem _ hx))]
+
+theorem dictVals_mem {c ks : List Var} {v : Var}
+    (h : v ∈ (inter' (dedup' (c.map Var.base)) ks).filterMap (lastWithBase c)) : v ∈ c := by
+  obtain ⟨k, hk, hv⟩ := List.mem_filterMap.mp h
+  unfold lastWithBase at hv
+  exact (List.mem_filter.mp (List.mem_of_getLast? hv)).1
+
+theorem nodup_names_of_nodup_map_base {l : List Var} (h : (l.map Var.base).Nodup) : (l.map (·.name)).Nodup := by
+  induction l with
+  | nil => simp
+  | cons a l ih =>
+    simp only [List.map_cons, List.nodup_cons, List.mem_map] at h ⊢
+    refine ⟨?_, ih h.2⟩
+    rintro ⟨w, hw, e⟩
+    exact h.1 ⟨w, hw, Var.base_eq_iff.mpr e⟩
+
+theorem dictVals_names_nodup (c ks : List Var) :
+    (((inter' (dedup' (c.map Var.base)) ks).filterMap (lastWithBase c)).map (·.name)).Nodup := by
+  apply nodup_names_of_nodup_map_base
+  rw [dictVals_map_base]
+  exact nodup_inter' (nodup_dedup' _) _
+
+end Y0
